@@ -74,7 +74,10 @@ Record options := mkOptions {
   o_dis_dgroups : bool;          (* duration groups disabled: group durations count as 0 *)
   (* more objective factors: early arrival, late arrival, min stops, stop balance *)
   o_f_early : Z; o_f_late : Z; o_f_min_stops : Z; o_f_stop_balance : Z;
-  o_dis_multipliers : bool       (* stop duration multipliers disabled: every multiplier counts as 1 *)
+  o_dis_multipliers : bool;      (* stop duration multipliers disabled: every multiplier counts as 1 *)
+  (* capacity as an objective (objectives.capacities): resource index, factor, offset; the factory installs the
+     term only for a resource whose capacity constraint is switched off *)
+  o_cap_obj : list (nat * (Z * Z))
 }.
 
 (* a user-supplied constraint (C19): an exact check with an estimate that
@@ -550,6 +553,27 @@ Definition obj_min_stops (inp : input) (s : state) : Z :=
 Definition obj_stop_balance (inp : input) (s : state) : Z :=
   fold_right Z.max 0 (map route_nstops (st_routes s)).
 
+(* capacity excess (model_maximum.go maximumImpl.Value as an objective): per vehicle the excess of the level over the
+   capacity - at the vehicle's last stop when the expression has no negative value (nothing is ever dropped off), else
+   at EVERY stop of the route, the vehicle's own first and last stop included; the offset is added once when there is
+   any excess *)
+Definition cap_has_neg (inp : input) (r : nat) : bool :=
+  existsb (fun st => 0 <? nthZ (is_quantity st) r) (in_stops inp).
+Definition obj_capacity_excess (inp : input) (s : state) (r : nat) (offset : Z) : Z :=
+  let total :=
+    sumZ (map (fun vr =>
+                 let maxv := capacity inp (fst vr) r in
+                 if cap_has_neg inp r
+                 then sumZ (map (fun c => Z.max 0 (nthZ (c_levels c) r - maxv)) (snd vr))
+                 else Z.max 0 (nthZ (c_levels (last_cell (snd vr))) r - maxv))
+              (combine (seqn (length (in_vehicles inp))) (st_routes s))) in
+  if 0 <? total then total + offset else total.
+Definition cap_obj_terms (inp : input) (s : state) : list Z :=
+  let o := in_opts inp in
+  flat_map (fun e => let '(r, (f, off)) := e in
+                     if o_dis_capacity o && (0 <? f) then [f * obj_capacity_excess inp s r off] else [])
+           (o_cap_obj o).
+
 (* which of these terms the factory installs *)
 Definition has_early (inp : input) : bool :=
   existsb (fun st => match is_target st with Some _ => negb (is_early_pen st =? 0) | None => false end) (in_stops inp).
@@ -568,7 +592,8 @@ Definition score_terms (inp : input) (s : state) : list Z :=
   (if (0 <? o_f_early o) && has_early inp then [o_f_early o * obj_early inp s] else []) ++
   (if (0 <? o_f_late o) && has_late inp then [o_f_late o * obj_late inp s] else []) ++
   (if (0 <? o_f_min_stops o) && has_min_stops inp then [o_f_min_stops o * obj_min_stops inp s] else []) ++
-  (if 0 <? o_f_stop_balance o then [o_f_stop_balance o * obj_stop_balance inp s] else []).
+  (if 0 <? o_f_stop_balance o then [o_f_stop_balance o * obj_stop_balance inp s] else []) ++
+  cap_obj_terms inp s.
 
 Definition refresh_scores (inp : input) (s : state) : state :=
   let t := score_terms inp s in
